@@ -5,6 +5,7 @@ from . import rules_prng as P
 from . import rules_iface as I
 from . import rules_decode as D
 from . import rules_cb as CB
+from . import rules_param as PA
 
 PROPS = {}
 MAIN3 = [1, 2, 3]        # RS-2^8, RS-2^m, LDPC-Staircase
@@ -61,8 +62,10 @@ def c02(ctx):
         D.r_complete(ctx, prog, RS)
         T.r_tables(ctx, prog)
         T.r_poly(ctx, prog)
+        PA.r_param(ctx, prog, codecs=(1, 2), only=['k>=1', 'k<=MAX_K', 'n<=MAX_N'])
     return dict(
-        explanation='R-RS-THRESHOLD: both RS finish_decoding routines run the matrix decoder only with >= k symbols, return FAILURE and '
+        explanation='R-PARAM (k and n clauses): an accepted (k, n) has 1 <= k <= MAX_K and n <= MAX_N = 2^m-1, the range in which the '
+        'evaluation points are pairwise distinct. R-RS-THRESHOLD: both RS finish_decoding routines run the matrix decoder only with >= k symbols, return FAILURE and '
         'leave the session unfinished with fewer, and the per-symbol routines trigger decoding once k distinct symbols are counted; '
         'distinctness rests on R-DUP, API independence on R-SETAVAIL, completion flag discipline on R-COMPLETE; R-TABLES/R-POLY: the '
         'fields the generator matrices are built in are the documented ones.',
@@ -170,8 +173,6 @@ def c19(ctx):
         extra=extra)
 
 
-from . import rules_param as PA
-
 
 @prop('C09')
 def c09(ctx):
@@ -190,3 +191,26 @@ def c09(ctx):
                  'argument guards of the dispatch layer and encoders'],
         not_decided=['inside the limits => OK and then encodes/decodes correctly (behavioural)'],
         extra=extra)
+
+
+from . import rules_own as O
+
+
+@prop('C08')
+def c08(ctx):
+    for prog in programs(ctx):
+        O.r_own_field(ctx, prog, MAIN3)
+        O.r_own_elem(ctx, prog, MAIN3)
+        O.r_own_local(ctx, prog, 'api')
+        O.r_uaf(ctx, prog, 'api')
+        O.r_dangling(ctx, prog, 'api')
+    return dict(
+        explanation='R-OWN-FIELD: for each control block / matrix object, the set of members that anywhere receive a library allocation '
+        'is contained in the set the destructor releases whenever non-NULL. R-OWN-ELEM: element sweeps cover exactly the library-owned '
+        'index ranges and never the application-owned source slots. R-OWN-LOCAL: typestate walk for every local allocation: on every '
+        'path to a non-error return it is freed, stored into a longer-lived object, returned or handed to an owning callee. R-UAF: no use '
+        'of a freed SSA pointer or of a reloaded member without reassignment (double free included).',
+        decides=['owned subset of released for all seven destructors; element sweeps; local allocations on success and FAILURE exits; '
+                 'use-after-free / double free within a function'],
+        not_decided=['leaks that need arithmetic on ESIs or the order of API calls across functions to see',
+                     'error-status exits (allocation failure) are exempt by the property\'s "protocol-conforming" scope'])
